@@ -13,7 +13,7 @@ cd $W
 cmd=$(python3 -c "import json;print(json.load(open('$S/meta.json'))['demo_cmd'])")
 t=$(echo "$cmd" | grep -o -- '--test [a-z0-9_]*' | head -1 | cut -d' ' -f2)
 first=$(echo "$cmd" | grep -o 'cargo test[^#&;]*' | head -1)
-flags=$(echo "$first" | grep -oE -- '--no-default-features|--features[ =][A-Za-z_,]+' | tr '\n' ' ')
+flags=$(echo "$first" | grep -oE -- '--no-default-features|--release|--features[ =][A-Za-z_,]+' | tr '\n' ' ')
 rf=$(echo "$cmd" | grep -o 'RUSTFLAGS="[^"]*"' | head -1 | sed 's/RUSTFLAGS="//; s/"$//')
 if [ -n "$rf" ]; then export RUSTFLAGS="$rf"; export CARGO_TARGET_DIR=$W/target-rf; fi
 cp $S/demo.rs tests/$t.rs
